@@ -1286,4 +1286,16 @@ theorem run_inv (c : Cfg) (hs : c.Sound) (ops : List Op) : Inv (run c ops) := by
   unfold run
   exact foldl_inv Inv (step c) (fun s op h => step_inv c hs s op h) ops _ inv_init
 
+theorem mem_aliveObjs (s : St) (p : Nat × Obj) (hp : p ∈ aliveObjs s) :
+    s.objs p.1 = some p.2 ∧ p.2.alive = true := by
+  unfold aliveObjs at hp
+  rcases List.mem_filterMap.mp hp with ⟨h, _, hh⟩
+  cases ho : s.objs h with
+  | none => simp [ho] at hh
+  | some o =>
+    simp only [ho] at hh
+    split at hh
+    · cases hh; exact ⟨ho, by assumption⟩
+    · cases hh
+
 end C08
